@@ -1,5 +1,6 @@
 //! Allocator traces: exhaustive DFS over small ranges, random long walks near the extremes.
 use crate::rng::Rng;
+use mqtt_protocol_core::mqtt::connection::PacketIdManager;
 use mqtt_protocol_core::mqtt::ValueAllocator;
 use std::fmt::Display;
 use std::io::Write;
@@ -64,6 +65,41 @@ macro_rules! impl_run {
         }
     };
 }
+/// the same operations through `PacketIdManager` (the allocator over [1, T::MAX] behind the connection's
+/// identifier API): acquire = allocate, register = reserve, release = deallocate
+macro_rules! impl_run_pm {
+    ($name:ident, $t:ty) => {
+        pub fn $name(a: &mut PacketIdManager<$t>, op: &Op, out: &mut dyn Write) {
+            let conv = |v: u64| -> $t { v as $t };
+            let (txt, ans) = match op {
+                Op::Dealloc(v) => (
+                    format!("dealloc {v}"),
+                    match catch_unwind(AssertUnwindSafe(|| a.release_id(conv(*v)))) {
+                        Ok(()) => "unit".into(),
+                        Err(_) => "PANIC".into(),
+                    },
+                ),
+                Op::Use(v) => (format!("use {v}"), format!("{}", a.register_id(conv(*v)).is_ok())),
+                Op::IsUsed(v) => (format!("isused {v}"), format!("{}", a.is_used_id(conv(*v)))),
+                Op::Clear => {
+                    a.clear();
+                    ("clear".to_string(), "unit".into())
+                }
+                _ => (
+                    "allocate".to_string(),
+                    match a.acquire_unique_id() {
+                        Ok(v) => format!("some{v}"),
+                        Err(_) => "none".into(),
+                    },
+                ),
+            };
+            writeln!(out, "O {txt} = {ans} ; {}", ivs(a.verif_intervals())).unwrap();
+        }
+    };
+}
+impl_run_pm!(run_pm_u16, u16);
+impl_run_pm!(run_pm_u32, u32);
+
 impl_run!(run_u8, u8);
 impl_run!(run_u16, u16);
 impl_run!(run_u32, u32);
@@ -163,6 +199,29 @@ pub fn generate(tier: &str, seed: u64, out: &mut dyn Write) {
         }
         writeln!(out, "END").unwrap();
     }
+    // the identifier manager of a connection: the same walk through its wrapper methods
+    let pm_op = |rng: &mut Rng, tmax: u64| -> Op {
+        loop {
+            let op = walk(rng, 1, tmax, tmax);
+            if !matches!(op, Op::First | Op::Count) {
+                return op;
+            }
+        }
+    };
+    {
+        writeln!(out, "T alloc pidman-u16 1 65535 65535").unwrap();
+        let mut a = PacketIdManager::<u16>::new();
+        for _ in 0..steps / 4 {
+            run_pm_u16(&mut a, &pm_op(&mut rng, 65535), out);
+        }
+        writeln!(out, "END").unwrap();
+        writeln!(out, "T alloc pidman-u32 1 4294967295 4294967295").unwrap();
+        let mut a = PacketIdManager::<u32>::new();
+        for _ in 0..steps / 4 {
+            run_pm_u32(&mut a, &pm_op(&mut rng, 4294967295), out);
+        }
+        writeln!(out, "END").unwrap();
+    }
     for (lo, hi) in [(1u64, 10u64), (250, 255), (0, 255)] {
         writeln!(out, "T alloc walk-u8-{lo}-{hi} {lo} {hi} 255").unwrap();
         let mut a = ValueAllocator::<u8>::new(lo as u8, hi as u8);
@@ -181,6 +240,8 @@ pub fn replay(text: &str, out: &mut dyn Write) {
     let mut a16: Option<ValueAllocator<u16>> = None;
     let mut a32: Option<ValueAllocator<u32>> = None;
     let mut st8: Vec<ValueAllocator<u8>> = vec![];
+    let mut pm16: Option<PacketIdManager<u16>> = None;
+    let mut pm32: Option<PacketIdManager<u32>> = None;
     for line in text.lines() {
         let w: Vec<&str> = line.split_whitespace().collect();
         if w.is_empty() {
@@ -194,6 +255,17 @@ pub fn replay(text: &str, out: &mut dyn Write) {
                 a8 = None;
                 a16 = None;
                 a32 = None;
+                pm16 = None;
+                pm32 = None;
+                if w[2].starts_with("pidman") {
+                    if tm == 65535 {
+                        pm16 = Some(PacketIdManager::new());
+                    } else {
+                        pm32 = Some(PacketIdManager::new());
+                    }
+                    writeln!(out, "{line}").unwrap();
+                    continue;
+                }
                 match tm {
                     255 => a8 = Some(ValueAllocator::new(lo as u8, hi as u8)),
                     65535 => a16 = Some(ValueAllocator::new(lo as u16, hi as u16)),
@@ -221,7 +293,11 @@ pub fn replay(text: &str, out: &mut dyn Write) {
                     "clear" => Op::Clear,
                     _ => Op::Count,
                 };
-                if let Some(a) = a8.as_mut() {
+                if let Some(a) = pm16.as_mut() {
+                    run_pm_u16(a, &op, out)
+                } else if let Some(a) = pm32.as_mut() {
+                    run_pm_u32(a, &op, out)
+                } else if let Some(a) = a8.as_mut() {
                     run_u8(a, &op, out)
                 } else if let Some(a) = a16.as_mut() {
                     run_u16(a, &op, out)
